@@ -74,6 +74,47 @@ pub fn script(args: &[String]) -> i32 {
                         ev["crashed"] = json!(true);
                     }
                 }
+                // ... and what the REAL search does with the successors: a depth-1 search on the engine's own Searcher with
+                // the event sink on; for every node entered at ply 1: did it return through the repetition rule, with which
+                // score, and was anything searched below it
+                crate::timer::verif::set_poll_limit(None);
+                crate::search::verif::set_sink(true);
+                let sr = catch_unwind(AssertUnwindSafe(|| f.verif_searcher().find_best_move(&b, 1, None)));
+                let evs = crate::search::verif::set_sink(false);
+                if sr.is_err() {
+                    ev["crashed"] = json!(true);
+                } else {
+                    use crate::search::verif::Ev;
+                    let kids: Vec<(String, String)> = mg.generate_moves(&b).iter().map(|m| (proj::project(&b.clone_with_move(m)), proj::move_text(m))).collect();
+                    let mut stack: Vec<(u8, String, bool)> = vec![];
+                    let mut seen = vec![];
+                    for (_, e) in &evs {
+                        match e {
+                            Ev::Neg { board, ply, .. } => {
+                                if let Some(top) = stack.last_mut() {
+                                    top.2 = true;
+                                }
+                                stack.push((*ply, proj::project(board), false));
+                            }
+                            Ev::Quiet { .. } => {
+                                if let Some(top) = stack.last_mut() {
+                                    top.2 = true;
+                                }
+                            }
+                            Ev::NegRet { kind, score, .. } => {
+                                if let Some((ply, key, below)) = stack.pop() {
+                                    if ply == 1 {
+                                        if let Some((_, text)) = kids.iter().find(|(k, _)| *k == key) {
+                                            seen.push(json!([text, *kind == "rep", (*score).clamp(-40000, 40000), below]));
+                                        }
+                                    }
+                                }
+                            }
+                            _ => {}
+                        }
+                    }
+                    ev["seen"] = json!(seen);
+                }
             }
         }
         writeln!(w, "{}", ev).ok();
